@@ -6,7 +6,8 @@ CFG = {
         J("prod", "witness --only C08"),
         J("scaled", "c08", shard=12, timeout=2400, imports="Base Stream Inst Run RunC08"),
         J("prod", "c08", timeout=2400),
-        J("scaled", "c08-stack"),
+        J("scaled", "c08-stack", imports="Base Stream Inst Run RunC08Stack", shard=8),
+        J("scaled", "c13-hdr", imports="Base Stream Inst Run RunHdr"),
     ],
     "rule": "valid archives < 2 KiB in all 4 layer combinations (scaled and production constants), then 1-3 structured mutations each: "
             "truncation at any length, bit flip, byte substitution {00,01,7f,80,fe,ff}, 4/8-byte field overwrite at any offset with "
@@ -18,7 +19,7 @@ CFG = {
             "per flavour. Each input: open, list, per name get_hash and get_file read to end with buffers {1,7,4096}, linear extraction of all, "
             "the same reader used again, drop, repair (both modes when encrypted). Cases run in child processes (stack overflow = abnormal exit "
             "attributed to the running case), 8 MiB-stack thread, 5 s watchdog, counting global allocator. non-trivial = body non-empty; "
-            "distinct = distinct input bytes. c08-stack (scaled): 220 / 900 compression-over-encryption streams (half of them an exact multiple of the block size) with the tag of 1-2 chunks altered, 22-op histories of reads and seeks of every kind continued after errors, seeks to exactly the end: no panic, successful reads return the written bytes",
+            "distinct = distinct input bytes. c08-stack (scaled, MODEL-COMPARED): 220 / 900 compression-over-encryption streams (half of them an exact multiple of the block size, half incompressible so that a compressed block spans several encryption chunks) with the tag of 1-2 chunks altered (six times in seven only chunks before the compression footer, so that the stack opens), 23-op histories of reads and seeks of every kind continued after errors, seeks to exactly the end; an instrumented LayerReader between the real compression and encryption readers records every read (bytes asked, bytes delivered) and seek the compression layer issues. Oracle: no panic, successful reads return the written bytes, the decoder law NoNmiAtEnd observed on the real brotli decoder (random slicing, room 0 included)",
     "exhaustive": {"quick": False, "thorough": False},
     "explanation": "theorems (Total*.v): over ANY byte string, block parser, footer reader, open, get_hash, get_file, file reads, linear extraction, "
                    "encryption layer reads/seeks and whole operation histories never reach a Crash site of the model and never run out of the "
@@ -26,9 +27,18 @@ CFG = {
                    "length. correspondence: no panic / abort / hang / allocation above 8 MiB (40 MiB with compression; 64 MiB at production "
                    "constants) + 64*|input| on every generated input, and on a sample (layers none / encrypt, scaled) the outcome rows of "
                    "hist_plain / hist_enc / repair_plain / repair_enc equal the implementation's",
-    "run_modules": ["RunC08"],
+    "run_modules": ["RunC08", "RunC08Stack", "RunHdr"],
     "assumptions": ["fewer than 2^32 chunks per encrypted stream (input < 2^32 * (CHUNK+TAG) bytes, 512 TiB at production constants)",
                     "the compression reader is modelled with the decoder as a function of the whole compressed block (TotalComp*.v: totality over any bytes and any sizes table); the brotli decoder itself is outside the model (D22 lives there) and is covered by the direct oracle only",
-                    "c08-stack is oracle-only: on an encrypted stream with an unverifiable chunk the model reports the inner error when the decompressor is created, the code at the first read reaching the chunk",
+                    "c08-stack is model-compared against the STREAMING model of the compression reader (theories/CompLayerS.v: brotli::Decompressor<Take<R>> as written in brotli-decompressor 4.0.2 - input buffer of min(csize, BLOCK) bytes (4096 when 0), refilled by ONE inner read of (buffer length - kept bytes) bytes only when a decoder call asked for input without producing output, copy_to_front as in the crate; io::copy skip in chunks of 8192) with brotli's decoder tabulated per case from the real crate (for every prefix of every compressed block the number of plaintext bytes produced; greedy table-driven step RunFsComp.gstep): per operation the Ok/Err class, value, stream_position and bytes equal the real stack's, AND the sequence of inner reads/seeks (sizes asked and delivered) of every operation that returned Ok equals the one recorded between the real layers - so the read-ahead (refill size) is compared exactly. The Empty placeholder is observed through the operations that follow an error (seek(Start) answers WrongReaderState iff Empty; streams that are a multiple of the block size end with seek(Start(len)), which performs no inner I/O). The log of an operation that failed is not compared (the model has dropped its inner layer with the log)",
+                    "theorems on the streaming model (props/C08.v, C08_comp_stream_*): totality of read / seek over an inner stream that may return Err at any read or seek, any bytes, any SizesInfo, any decoder step respecting its buffers (DstepBounded); after an Err the reader is Empty inside the invariant and later calls are total; error timing: a read whose bytes are decodable from input already pulled succeeds without touching the inner stream, a starved read issues one refill of min(refill_want, Take limit) bytes and returns that read's error. props/C11.v: under DecoderLaws + NoNmiAtEnd + the block table being the decoder's, the streaming reader refines a cursor over the plaintext and agrees with the whole-block model on read-until-n and seeks",
                     "allocation is measured, not proved, for the implementation; the model bound is on the footer (the only input-sized allocation above the layers)"],
 }
+
+# work package hdrsrc
+CFG["rule"] += ("; c13-hdr (scaled): the header stage alone (ArchiveHeader::from) on every truncation of a header and on hostile headers (magic, "
+                "version, Option tag, layers, key count up to 2^64-1) through short-read sources: no panic, error class and bytes consumed == model")
+CFG["explanation"] += (" || header (props/C08.v C08_header_total): over ANY bytes and any source refining a cursor over them the streamed header read "
+                "ends in Ok or one of UnexpectedEof / WrongMagic / UnsupportedVersion / DeserializationError, never a Crash site, never out of the "
+                "model's fuel (the key-table loop is bounded by the bincode limit: 48 bytes are charged per entry), consumes at most 7 + limit bytes, "
+                "and an accepted header's key table is at most the limit")
